@@ -72,6 +72,12 @@ func (Precompile) Address() common.Address {
 
 // RequiredGas calculates the precompiled contract's base gas rate.
 func (p Precompile) RequiredGas(input []byte) uint64 {
+	// a call with less than a 4-byte selector (e.g. a plain transfer) names no method:
+	// nothing to pre-charge, Run rejects it (or routes it to fallback/receive)
+	if len(input) < 4 {
+		return 0
+	}
+
 	methodID := input[:4]
 
 	method, err := p.MethodById(methodID)
